@@ -94,7 +94,7 @@ def driver_verdicts(tier, repo=None):
     jobs = [(base + i, DRIVER_FAMILIES[i % len(DRIVER_FAMILIES)], plan["sizes"][i % len(plan["sizes"])], plan["steps"], False)
             for i in range(plan["histories"])]
     with core.pool(driver.worker_init, (repo, False), min(16, len(jobs))) as p:
-        hists = p.map(driver.history, jobs)
+        hists = core.pmap(p, driver.history, jobs)
     ops = [e for h in hists for e in h["ops"]]
     queries = [q for h in hists for q in h["queries"]]
     # mutators: TraceOps (chained within each history)
